@@ -752,6 +752,36 @@ impl AdvancePositions {
     }
 }
 
+/// Read-only view of the sequential-access cursor for the external verification harness.
+#[cfg(feature = "verif-hooks")]
+impl AdvancePositions {
+    /// `[next_open_idx, adv_cumulative, ib_word_idx, ib_ones_before, last_ib_arg,
+    /// last_ib_result]` (`last_ib_arg == usize::MAX` means "no cached select").
+    pub fn verif_cursor(&self) -> [usize; 6] {
+        let c = self.cursor.get();
+        [
+            c.next_open_idx,
+            c.adv_cumulative,
+            c.ib_word_idx,
+            c.ib_ones_before,
+            c.last_ib_arg,
+            c.last_ib_result,
+        ]
+    }
+}
+
+#[cfg(feature = "verif-hooks")]
+impl OpenPositions {
+    /// The compact variant's cursor (see [`AdvancePositions::verif_cursor`]); `None` for
+    /// the dense variant, which has no cursor.
+    pub fn verif_cursor(&self) -> Option<[usize; 6]> {
+        match self {
+            Self::Compact(ap) => Some(ap.verif_cursor()),
+            Self::Dense(_) => None,
+        }
+    }
+}
+
 impl AdvancePositionsCursor<'_> {
     /// Returns the current text position, or `None` if exhausted.
     #[inline]
